@@ -34,6 +34,11 @@ fn enc_case(o: &mut Out, n: u64) {
     // intrinsic oracle: decode(encode n) = n, consuming everything; with a suffix, exactly the suffix is left
     let back = deserialize_partial::<VarInt>(&w).map(|(v, k)| (v.0, k)).ok();
     o.direct(back == Some((n, w.len())), "varint: decode(encode n) == (n, len)", format!("varint_enc {}", n), format!("{:?}", back), format!("{:?}", (n, w.len())));
+    // the encoder behind any legal `io::Write` (short writes) and the decoder behind any legal `io::Read` (short reads)
+    let (cw, cl) = encode_chunked(&VarInt(n));
+    o.direct(cw == w && cl == Some(w.len()), "varint: consensus_encode into a short-writing io::Write gives the same bytes and count", format!("varint_enc {}", n), format!("{} {:?}", hex(&cw), cl), format!("{} {}", hex(&w), w.len()));
+    let cr = decode_chunked::<VarInt>(&w).map(|(v, k)| (v.0, k));
+    o.direct(cr == Some((n, w.len())), "varint: consensus_decode from a short-reading io::Read gives the same value and count", format!("varint_enc {}", n), format!("{:?}", cr), format!("{:?}", (n, w.len())));
     o.op(format!("varint_enc {}", n), true);
 }
 
